@@ -776,7 +776,7 @@ def execute(ctx, n_real, n_emu, n_proc_exec):
 
 
 def budgets(ctx):
-    return ctx.budget(3, 14), ctx.budget(26, 200), ctx.budget(1, 3)
+    return ctx.budget(3, 10), ctx.budget(22, 150), ctx.budget(1, 3)
 
 
 def corr(ctx):
